@@ -21,7 +21,8 @@ RULE = ("API level (fresh Program per case, no-progress detector on the size loo
         "literals, labels, comments and operands; (7) very long tokens, lines and programs (decimal literals of up to "
         "5000 digits in 14 operand positions, 5000-character labels, 8000-character strings, 30000-element lists, "
         "20000 statements); (8) 12 shapes of EQU symbols defined through each other (alias and expression cycles, "
-        "chains, undefined ends) x 11 uses x definition before/after use. CLI level (real assembler.py "
+        "chains, undefined ends) x 11 uses x definition before/after use; (9) division by something that is zero "
+        "only once symbols are known (7 spellings of zero x 15 positions x definition before/after). CLI level (real assembler.py "
         "processes with --to_bin/--to_cas/--to_dsk): no traceback; on a diagnostic exit status != 0 and no output "
         "file created. Oracle: outcome is OK or a Parse/Translation diagnostic with a message and a printable "
         "statement; never an internal exception, never a hang. Non-trivial = outcome is not OK, or the case is of "
@@ -242,6 +243,22 @@ def equ_cycle_cases():
         yield dict(kind="cli", cls="cli", lines=[" ORG $1000\n"] + shape + ["L0 NOP \n", " LDA #E0\n"], switches=["--to_bin", "o.bin"])
 
 
+def zero_divisor_cases():
+    """a divisor that is zero only once symbols are resolved: literal, EQU (before / after use), label difference"""
+    zeros = [("0", []), ("E0", ["E0 EQU 0\n"]), ("E0", ["E0 EQU 5-5\n"]), ("E0", ["E0 EQU L0-L0\n"]), ("E0", ["E0 EQU E1\n", "E1 EQU 0\n"]),
+             ("L0-L0", []), ("NOSUCH", [])]
+    uses = [" LDA #5/{z}\n", " LDX #L0/{z}\n", " LDA 5/{z}\n", " LDA L0/{z},X\n", " JMP [5/{z}]\n", " LDA 5/{z},PCR\n", " FCB 5/{z}\n",
+            " FDB 1,L0/{z}\n", " RMB 5/{z}\n", " ORG 5/{z}\n", "E2 EQU 5/{z}\n", "E2 EQU L0/{z}\n", " LDA #{z}/{z}\n", " SETDP 5/{z}\n",
+            " END L0/{z}\n"]
+    for z, defs in zeros:
+        for use in uses:
+            line = use.format(z=z)
+            tail = [" LDA #E2\n"] if line.startswith("E2") else []
+            yield dict(kind="lines", cls="zero_divisor", lines=[" ORG $1000\n"] + defs + ["L0 NOP \n", line] + tail)
+            yield dict(kind="lines", cls="zero_divisor", lines=[" ORG $1000\n", "L0 NOP \n", line] + tail + defs)
+        yield dict(kind="cli", cls="cli", lines=[" ORG $1000\n", "L0 NOP \n", " LDA #5/{}\n".format(z)] + defs, switches=["--to_bin", "o.bin"])
+
+
 def long_input_cases():
     """very long tokens, lines and programs (a decimal literal beyond 4300 digits trips the interpreter's own limit)"""
     for digits in (6, 40, 4300, 4301, 5000):
@@ -266,6 +283,7 @@ def enumerated(tier, seed):
     yield from odd_character_cases()
     yield from long_input_cases()
     yield from equ_cycle_cases()
+    yield from zero_divisor_cases()
     for case in include_catalogue():
         yield case
         yield dict(case, kind="cli_include", cls="cli", switches=["--to_bin", "o.bin", "--to_cas", "o.cas", "--to_dsk", "o.dsk"])
@@ -309,7 +327,7 @@ def _judge_api(out, labels):
 def execute(case):
     kind = case["kind"]
     labels = ["class:" + case["cls"]]
-    special = case["cls"] in ("pcr_sweep", "include", "cli", "odd_chars", "long_input", "equ_cycle")
+    special = case["cls"] in ("pcr_sweep", "include", "cli", "odd_chars", "long_input", "equ_cycle", "zero_divisor")
     if kind == "lines":
         out = driver.assemble(case["lines"])
         bad = _judge_api(out, labels)
